@@ -83,7 +83,7 @@ def conc (toks : List String) : String :=
   | none => "bad-op"
   | some (r, ws) => " ".intercalate (AndaVerif.DrvColl.sortStrs (explore [(r, ws)] [] []))
 
-def stepLine (st : State × Bool) (line : String) : (State × Bool) × String :=
+def stepLine (st : DState × AndaVerif.DrvColl.Pending) (line : String) : (DState × AndaVerif.DrvColl.Pending) × String :=
   match words line with
   | "conc" :: toks => (st, conc toks)
   | _ => AndaVerif.DrvColl.stepLine st line
@@ -91,4 +91,4 @@ def stepLine (st : State × Bool) (line : String) : (State × Bool) × String :=
 end AndaVerif.DrvC04
 
 def main : IO Unit :=
-  AndaVerif.Drv.lineLoop (AndaVerif.Collection.init [], false) AndaVerif.DrvC04.stepLine
+  AndaVerif.Drv.lineLoop (AndaVerif.Collection.dinit [], AndaVerif.DrvColl.Pending.none) AndaVerif.DrvC04.stepLine
